@@ -166,6 +166,18 @@ Example ex_kruskal :
              kt_parent kt = [None; Some 2; Some 3; Some 0] /\ sumz (kr_key ex_ki) (kt_ids kt) = 6%Z.
 Proof. eexists. split; [vm_compute; reflexivity|]. repeat split. Qed.
 
+(* a heavier competitor 0-1, 1-2, 2-3 (weight 8) meets the hypotheses of the minimality theorem *)
+Example ex_competitor :
+  let ed := edge_at (ki_edges ex_ki) in
+  idforest ed [0; 1; 2] /\ incl [0; 1; 2] (kr_candidates ex_ki) /\
+  (forall u v, econn (eds ed (kr_candidates ex_ki)) u v -> econn (eds ed [0; 1; 2]) u v) /\
+  sumz (kr_key ex_ki) [0; 1; 2] = 8%Z.
+Proof.
+  destruct (is_spanning_forest_sound (ki_edges ex_ki) 4 (kr_candidates ex_ki) [(0, 1); (1, 2); (2, 3)] (cand_in ex_ki ex_kin_ok))
+    as (ids & Hi & _ & _ & Hincl & HF & Hsp); [vm_compute; reflexivity|].
+  vm_compute in Hi. inversion Hi; subst ids. cbv zeta. repeat split; auto. intros u v. apply Hsp.
+Qed.
+
 (* ------------------------------------------------------------ statements exported by Props.v *)
 Lemma bfs_defined c g root :
   (root < length g -> exists t, bfs c g root = Some t) /\ (length g <= root -> bfs c g root = None).
